@@ -8,6 +8,8 @@ IDS="$*"; [ -z "$IDS" ] && IDS=$(ls $V/seeded)
 export VERIF_REPO="$WT"
 for ID in $IDS; do
   git -C "$WT" checkout -q -- . 2>/dev/null
+  SUP=$(python3 -c "import json;print(json.load(open('$V/seeded/$ID/meta.json')).get('superseded_by',''))")
+  if [ -n "$SUP" ]; then echo "$ID | superseded by fix $SUP (see meta.json)"; continue; fi
   git -C "$WT" apply "$V/seeded/$ID/patch.diff" 2>/dev/null || { echo "$ID | patch does not apply"; continue; }
   if $V/bin/baseline >/dev/null 2>&1; then SUITE=survives; else SUITE=KILLED-BY-SUITE; fi
   DET=$(python3 -c "
